@@ -1,1 +1,1495 @@
-//! (stub)
+//! Reference model for DWARF expressions (C07): an independent decoder of every DW_OP
+//! (DWARF 5 §2.5 / §7.7.1 plus the GNU 0xe0/0xf0-0xfd and WASM 0xed extensions) and a
+//! reference stack machine over typed values that uses i128 arithmetic.
+//!
+//! Written from the DWARF 5 standard and DESIGN.md Appendix A.6, not from gimli's code.
+//! The machine returns the exact sequence of external requests (with the answers it was
+//! given), the final pieces / value or the error, the number of iterations (operations
+//! executed) and the number of operation decodes.
+//!
+//! Choices where the standard is silent (the model follows the pinned tree; every such
+//! choice either widens the set of acceptable errors or marks the run `tainted`, which
+//! turns the comparison into a secondary observation):
+//!  * which error is reported when several apply to one operation: the model lists *all*
+//!    applicable kinds (`MErr::kinds`), first the one the pinned tree reports;
+//!  * abs/neg of the minimum value, float -> integer conversions that do not fit, float
+//!    division by zero, abs of -0.0 / NaN, `const_type` with more data bytes than the type
+//!    needs, a float register answer to a `breg` with a negative offset, a composite
+//!    location whose last operation is not a piece but a request (`piece 4; fbreg 0`):
+//!    tainted;
+//!  * `DW_OP_mod` on generic values is unsigned, `DW_OP_div` and the comparisons signed;
+//!  * a generic value is address-sized: every generic value is reduced modulo
+//!    2^(8*address_size) when it is pushed (so a shift count is the reduced value);
+//!  * `DW_OP_convert` is value preserving between integer types (sign-extend signed
+//!    sources, then truncate) and from integers to floats (a signed -1 becomes -1.0).
+
+use crate::asm::{get_uint, Enc};
+
+// ------------------------------------------------------------------ types and values
+
+#[derive(Clone, Copy, Debug, PartialEq, Eq, Hash)]
+pub enum Ty {
+    Generic,
+    I8,
+    U8,
+    I16,
+    U16,
+    I32,
+    U32,
+    I64,
+    U64,
+    F32,
+    F64,
+}
+
+pub const ALL_TYPES: [Ty; 11] = [Ty::Generic, Ty::I8, Ty::U8, Ty::I16, Ty::U16, Ty::I32, Ty::U32, Ty::I64, Ty::U64, Ty::F32, Ty::F64];
+
+impl Ty {
+    pub fn is_float(self) -> bool {
+        matches!(self, Ty::F32 | Ty::F64)
+    }
+    pub fn is_signed_int(self) -> bool {
+        matches!(self, Ty::I8 | Ty::I16 | Ty::I32 | Ty::I64)
+    }
+    pub fn is_unsigned_typed(self) -> bool {
+        matches!(self, Ty::U8 | Ty::U16 | Ty::U32 | Ty::U64)
+    }
+    /// Width in bits (generic: the address width).
+    pub fn bits(self, addr: u8) -> u32 {
+        match self {
+            Ty::Generic => 8 * addr as u32,
+            Ty::I8 | Ty::U8 => 8,
+            Ty::I16 | Ty::U16 => 16,
+            Ty::I32 | Ty::U32 | Ty::F32 => 32,
+            Ty::I64 | Ty::U64 | Ty::F64 => 64,
+        }
+    }
+    pub fn name(self) -> &'static str {
+        match self {
+            Ty::Generic => "generic",
+            Ty::I8 => "i8",
+            Ty::U8 => "u8",
+            Ty::I16 => "i16",
+            Ty::U16 => "u16",
+            Ty::I32 => "i32",
+            Ty::U32 => "u32",
+            Ty::I64 => "i64",
+            Ty::U64 => "u64",
+            Ty::F32 => "f32",
+            Ty::F64 => "f64",
+        }
+    }
+}
+
+pub fn width_mask(bits: u32) -> u64 {
+    if bits >= 64 {
+        u64::MAX
+    } else {
+        (1u64 << bits) - 1
+    }
+}
+
+/// A stack value: type + bit pattern (zero-extended, reduced to the type's width).
+#[derive(Clone, Copy, Debug, PartialEq, Eq)]
+pub struct Val {
+    pub ty: Ty,
+    pub bits: u64,
+}
+
+pub const CANON_NAN32: u64 = 0x7fc0_0000;
+pub const CANON_NAN64: u64 = 0x7ff8_0000_0000_0000;
+
+impl Val {
+    pub fn new(ty: Ty, raw: u64, addr: u8) -> Val {
+        Val { ty, bits: raw & width_mask(ty.bits(addr)) }
+    }
+    pub fn generic(raw: u64, addr: u8) -> Val {
+        Val::new(Ty::Generic, raw, addr)
+    }
+    pub fn f32(self) -> f32 {
+        f32::from_bits(self.bits as u32)
+    }
+    pub fn f64(self) -> f64 {
+        f64::from_bits(self.bits)
+    }
+    pub fn from_f32(x: f32) -> Val {
+        Val { ty: Ty::F32, bits: x.to_bits() as u64 }
+    }
+    pub fn from_f64(x: f64) -> Val {
+        Val { ty: Ty::F64, bits: x.to_bits() }
+    }
+    /// Unsigned reading of the bit pattern.
+    pub fn unsigned(self) -> i128 {
+        self.bits as i128
+    }
+    /// Signed (two's complement in the type's width) reading of the bit pattern.
+    pub fn signed(self, addr: u8) -> i128 {
+        let w = self.ty.bits(addr);
+        let v = self.bits as i128;
+        if w < 128 && (self.bits >> (w - 1)) & 1 == 1 {
+            v - (1i128 << w)
+        } else {
+            v
+        }
+    }
+    /// The mathematical value of an integer value: signed types signed, everything else
+    /// (unsigned types, generic) unsigned.
+    pub fn int_value(self, addr: u8) -> i128 {
+        if self.ty.is_signed_int() {
+            self.signed(addr)
+        } else {
+            self.unsigned()
+        }
+    }
+    /// All NaNs are equal: canonical form used for comparisons with gimli.
+    pub fn canon(self) -> Val {
+        match self.ty {
+            Ty::F32 if self.f32().is_nan() => Val { ty: Ty::F32, bits: CANON_NAN32 },
+            Ty::F64 if self.f64().is_nan() => Val { ty: Ty::F64, bits: CANON_NAN64 },
+            _ => self,
+        }
+    }
+    pub fn show(self) -> String {
+        match self.ty {
+            Ty::F32 => format!("f32:{:?}({:#x})", self.f32(), self.bits),
+            Ty::F64 => format!("f64:{:?}({:#x})", self.f64(), self.bits),
+            t => format!("{}:{:#x}", t.name(), self.bits),
+        }
+    }
+}
+
+fn wrap(ty: Ty, x: i128, addr: u8) -> Val {
+    Val::new(ty, x as u128 as u64, addr)
+}
+
+// ------------------------------------------------------------------ operations
+
+#[derive(Clone, Copy, Debug, PartialEq, Eq)]
+pub enum Ref {
+    Unit(u64),
+    Info(u64),
+}
+
+/// One decoded operation.  Several opcodes share a variant exactly where the standard
+/// defines them as the same operation with a different operand encoding.
+#[derive(Clone, Debug, PartialEq, Eq)]
+pub enum Op {
+    Addr(u64),
+    /// deref, deref_size, deref_type, xderef, xderef_size, xderef_type
+    Deref { size: u8, space: bool, base_type: u64 },
+    ConstU(u64),
+    ConstS(i64),
+    /// dup = pick 0, over = pick 1
+    Pick(u8),
+    Drop,
+    Swap,
+    Rot,
+    Abs,
+    And,
+    Div,
+    Minus,
+    Mod,
+    Mul,
+    Neg,
+    Not,
+    Or,
+    Plus,
+    PlusUconst(u64),
+    Shl,
+    Shr,
+    Shra,
+    Xor,
+    Bra(i16),
+    Skip(i16),
+    Eq,
+    Ge,
+    Gt,
+    Le,
+    Lt,
+    Ne,
+    /// reg0..31, regx
+    Reg(u16),
+    /// breg0..31, bregx (base_type 0), regval_type (offset 0)
+    Breg { reg: u16, off: i64, base_type: u64 },
+    Fbreg(i64),
+    /// piece (bits = 8 * bytes, no offset), bit_piece
+    Piece { bits: u64, off: Option<u64> },
+    Nop,
+    PushObjectAddress,
+    Call(Ref),
+    VariableValue(u64),
+    Tls,
+    Cfa,
+    ImplicitValue(Vec<u8>),
+    StackValue,
+    ImplicitPointer { value: u64, off: i64 },
+    EntryValue(Vec<u8>),
+    ParameterRef(u64),
+    Addrx(u64),
+    Constx(u64),
+    ConstType { base_type: u64, data: Vec<u8> },
+    Convert(u64),
+    Reinterpret(u64),
+    Uninit,
+    WasmLocal(u32),
+    WasmGlobal(u32),
+    WasmStack(u32),
+}
+
+impl Op {
+    /// Catalogue name (for coverage counters).
+    pub fn name(&self) -> &'static str {
+        match self {
+            Op::Addr(_) => "addr",
+            Op::Deref { .. } => "deref",
+            Op::ConstU(_) => "constu",
+            Op::ConstS(_) => "consts",
+            Op::Pick(_) => "pick",
+            Op::Drop => "drop",
+            Op::Swap => "swap",
+            Op::Rot => "rot",
+            Op::Abs => "abs",
+            Op::And => "and",
+            Op::Div => "div",
+            Op::Minus => "minus",
+            Op::Mod => "mod",
+            Op::Mul => "mul",
+            Op::Neg => "neg",
+            Op::Not => "not",
+            Op::Or => "or",
+            Op::Plus => "plus",
+            Op::PlusUconst(_) => "plus_uconst",
+            Op::Shl => "shl",
+            Op::Shr => "shr",
+            Op::Shra => "shra",
+            Op::Xor => "xor",
+            Op::Bra(_) => "bra",
+            Op::Skip(_) => "skip",
+            Op::Eq => "eq",
+            Op::Ge => "ge",
+            Op::Gt => "gt",
+            Op::Le => "le",
+            Op::Lt => "lt",
+            Op::Ne => "ne",
+            Op::Reg(_) => "reg",
+            Op::Breg { .. } => "breg",
+            Op::Fbreg(_) => "fbreg",
+            Op::Piece { .. } => "piece",
+            Op::Nop => "nop",
+            Op::PushObjectAddress => "push_object_address",
+            Op::Call(_) => "call",
+            Op::VariableValue(_) => "variable_value",
+            Op::Tls => "tls",
+            Op::Cfa => "cfa",
+            Op::ImplicitValue(_) => "implicit_value",
+            Op::StackValue => "stack_value",
+            Op::ImplicitPointer { .. } => "implicit_pointer",
+            Op::EntryValue(_) => "entry_value",
+            Op::ParameterRef(_) => "parameter_ref",
+            Op::Addrx(_) => "addrx",
+            Op::Constx(_) => "constx",
+            Op::ConstType { .. } => "const_type",
+            Op::Convert(_) => "convert",
+            Op::Reinterpret(_) => "reinterpret",
+            Op::Uninit => "uninit",
+            Op::WasmLocal(_) => "wasm_local",
+            Op::WasmGlobal(_) => "wasm_global",
+            Op::WasmStack(_) => "wasm_stack",
+        }
+    }
+}
+
+/// Why a decode fails.
+#[derive(Clone, Copy, Debug, PartialEq, Eq)]
+pub enum DErr {
+    /// the operation needs more bytes than there are
+    Eof,
+    /// an unsigned LEB128 operand does not fit 64 bits (or 32 for WASM indices)
+    BadUleb,
+    /// a signed LEB128 operand does not fit 64 bits
+    BadSleb,
+    /// unknown opcode / unknown WASM location kind / piece size * 8 overflows
+    Invalid,
+    /// register number above 65535
+    Register,
+    /// a LEB128 operand longer than 10 bytes: acceptance is not fixed (C09), any error or
+    /// nothing is compared
+    Overlong,
+}
+
+struct Cur<'a> {
+    b: &'a [u8],
+    pos: usize,
+    le: bool,
+}
+
+impl<'a> Cur<'a> {
+    fn u8(&mut self) -> Result<u8, DErr> {
+        let v = *self.b.get(self.pos).ok_or(DErr::Eof)?;
+        self.pos += 1;
+        Ok(v)
+    }
+    fn uint(&mut self, n: usize) -> Result<u64, DErr> {
+        if self.b.len() - self.pos < n {
+            return Err(DErr::Eof);
+        }
+        let v = get_uint(&self.b[self.pos..], self.le, n);
+        self.pos += n;
+        Ok(v)
+    }
+    fn sint(&mut self, n: usize) -> Result<i64, DErr> {
+        let v = self.uint(n)?;
+        let sh = 64 - 8 * n as u32;
+        Ok(((v << sh) as i64) >> sh)
+    }
+    fn uleb(&mut self) -> Result<u64, DErr> {
+        let mut v: u128 = 0;
+        for i in 0..10usize {
+            let x = self.u8()?;
+            v |= ((x & 0x7f) as u128) << (7 * i);
+            if x & 0x80 == 0 {
+                return if v > u64::MAX as u128 { Err(DErr::BadUleb) } else { Ok(v as u64) };
+            }
+        }
+        // ten continuation bytes
+        if v > u64::MAX as u128 {
+            Err(DErr::BadUleb)
+        } else {
+            Err(DErr::Overlong)
+        }
+    }
+    fn sleb(&mut self) -> Result<i64, DErr> {
+        let mut v: i128 = 0;
+        for i in 0..10usize {
+            let x = self.u8()?;
+            v |= ((x & 0x7f) as i128) << (7 * i);
+            if x & 0x80 == 0 {
+                if x & 0x40 != 0 {
+                    v -= 1i128 << (7 * (i + 1));
+                }
+                return if v < i64::MIN as i128 || v > i64::MAX as i128 { Err(DErr::BadSleb) } else { Ok(v as i64) };
+            }
+        }
+        // ten continuation bytes: fits only if the tenth carries pure sign bits
+        let tenth = self.b[self.pos - 1] & 0x7f;
+        if tenth != 0 && tenth != 0x7f {
+            Err(DErr::BadSleb)
+        } else {
+            Err(DErr::Overlong)
+        }
+    }
+    fn uleb32(&mut self) -> Result<u32, DErr> {
+        let v = self.uleb()?;
+        if v > u32::MAX as u64 {
+            Err(DErr::BadUleb)
+        } else {
+            Ok(v as u32)
+        }
+    }
+    fn reg(&mut self) -> Result<u16, DErr> {
+        let v = self.uleb()?;
+        if v > u16::MAX as u64 {
+            Err(DErr::Register)
+        } else {
+            Ok(v as u16)
+        }
+    }
+    fn block(&mut self, n: u64) -> Result<Vec<u8>, DErr> {
+        if ((self.b.len() - self.pos) as u64) < n {
+            return Err(DErr::Eof);
+        }
+        let n = n as usize;
+        let v = self.b[self.pos..self.pos + n].to_vec();
+        self.pos += n;
+        Ok(v)
+    }
+}
+
+/// Decode the operation at the start of `b`: `(operation, bytes consumed)`.
+pub fn decode(b: &[u8], enc: Enc) -> Result<(Op, usize), DErr> {
+    let mut c = Cur { b, pos: 0, le: enc.le };
+    let a = enc.addr as usize;
+    let w = enc.word() as usize;
+    let opc = c.u8()?;
+    let op = match opc {
+        0x03 => Op::Addr(c.uint(a)?),
+        0x06 => Op::Deref { size: enc.addr, space: false, base_type: 0 },
+        0x08 => Op::ConstU(c.uint(1)?),
+        0x09 => Op::ConstS(c.sint(1)?),
+        0x0a => Op::ConstU(c.uint(2)?),
+        0x0b => Op::ConstS(c.sint(2)?),
+        0x0c => Op::ConstU(c.uint(4)?),
+        0x0d => Op::ConstS(c.sint(4)?),
+        0x0e => Op::ConstU(c.uint(8)?),
+        0x0f => Op::ConstS(c.sint(8)?),
+        0x10 => Op::ConstU(c.uleb()?),
+        0x11 => Op::ConstS(c.sleb()?),
+        0x12 => Op::Pick(0),
+        0x13 => Op::Drop,
+        0x14 => Op::Pick(1),
+        0x15 => Op::Pick(c.u8()?),
+        0x16 => Op::Swap,
+        0x17 => Op::Rot,
+        0x18 => Op::Deref { size: enc.addr, space: true, base_type: 0 },
+        0x19 => Op::Abs,
+        0x1a => Op::And,
+        0x1b => Op::Div,
+        0x1c => Op::Minus,
+        0x1d => Op::Mod,
+        0x1e => Op::Mul,
+        0x1f => Op::Neg,
+        0x20 => Op::Not,
+        0x21 => Op::Or,
+        0x22 => Op::Plus,
+        0x23 => Op::PlusUconst(c.uleb()?),
+        0x24 => Op::Shl,
+        0x25 => Op::Shr,
+        0x26 => Op::Shra,
+        0x27 => Op::Xor,
+        0x28 => Op::Bra(c.sint(2)? as i16),
+        0x29 => Op::Eq,
+        0x2a => Op::Ge,
+        0x2b => Op::Gt,
+        0x2c => Op::Le,
+        0x2d => Op::Lt,
+        0x2e => Op::Ne,
+        0x2f => Op::Skip(c.sint(2)? as i16),
+        0x30..=0x4f => Op::ConstU((opc - 0x30) as u64),
+        0x50..=0x6f => Op::Reg((opc - 0x50) as u16),
+        0x70..=0x8f => Op::Breg { reg: (opc - 0x70) as u16, off: c.sleb()?, base_type: 0 },
+        0x90 => Op::Reg(c.reg()?),
+        0x91 => Op::Fbreg(c.sleb()?),
+        0x92 => {
+            let reg = c.reg()?;
+            Op::Breg { reg, off: c.sleb()?, base_type: 0 }
+        }
+        0x93 => {
+            let bytes = c.uleb()?;
+            Op::Piece { bits: bytes.checked_mul(8).ok_or(DErr::Invalid)?, off: None }
+        }
+        0x94 => Op::Deref { size: c.u8()?, space: false, base_type: 0 },
+        0x95 => Op::Deref { size: c.u8()?, space: true, base_type: 0 },
+        0x96 => Op::Nop,
+        0x97 => Op::PushObjectAddress,
+        0x98 => Op::Call(Ref::Unit(c.uint(2)?)),
+        0x99 => Op::Call(Ref::Unit(c.uint(4)?)),
+        0x9a => Op::Call(Ref::Info(c.uint(w)?)),
+        0x9b | 0xe0 => Op::Tls,
+        0x9c => Op::Cfa,
+        0x9d => {
+            let bits = c.uleb()?;
+            Op::Piece { bits, off: Some(c.uleb()?) }
+        }
+        0x9e => {
+            let n = c.uleb()?;
+            Op::ImplicitValue(c.block(n)?)
+        }
+        0x9f => Op::StackValue,
+        0xa0 | 0xf2 => {
+            // DWARF 2 producers (GNU extension) used an address-sized reference
+            let value = if enc.version == 2 { c.uint(a)? } else { c.uint(w)? };
+            Op::ImplicitPointer { value, off: c.sleb()? }
+        }
+        0xa1 | 0xfb => Op::Addrx(c.uleb()?),
+        0xa2 | 0xfc => Op::Constx(c.uleb()?),
+        0xa3 | 0xf3 => {
+            let n = c.uleb()?;
+            Op::EntryValue(c.block(n)?)
+        }
+        0xa4 | 0xf4 => {
+            let base_type = c.uleb()?;
+            let n = c.u8()?;
+            Op::ConstType { base_type, data: c.block(n as u64)? }
+        }
+        0xa5 | 0xf5 => {
+            let reg = c.reg()?;
+            Op::Breg { reg, off: 0, base_type: c.uleb()? }
+        }
+        0xa6 | 0xf6 => {
+            let size = c.u8()?;
+            Op::Deref { size, space: false, base_type: c.uleb()? }
+        }
+        0xa7 => {
+            let size = c.u8()?;
+            Op::Deref { size, space: true, base_type: c.uleb()? }
+        }
+        0xa8 | 0xf7 => Op::Convert(c.uleb()?),
+        0xa9 | 0xf9 => Op::Reinterpret(c.uleb()?),
+        0xf0 => Op::Uninit,
+        0xfa => Op::ParameterRef(c.uint(4)?),
+        0xfd => Op::VariableValue(c.uint(w)?),
+        0xed => match c.u8()? {
+            0 => Op::WasmLocal(c.uleb32()?),
+            1 => Op::WasmGlobal(c.uleb32()?),
+            2 => Op::WasmStack(c.uleb32()?),
+            3 => Op::WasmGlobal(c.uint(4)? as u32),
+            _ => return Err(DErr::Invalid),
+        },
+        _ => return Err(DErr::Invalid),
+    };
+    Ok((op, c.pos))
+}
+
+// ------------------------------------------------------------------ requests / answers
+
+#[derive(Clone, Debug, PartialEq, Eq)]
+pub enum Req {
+    Memory { address: u64, size: u8, space: Option<u64>, base_type: u64 },
+    Register { register: u16, base_type: u64 },
+    FrameBase,
+    Tls(u64),
+    Cfa,
+    AtLocation(Ref),
+    EntryValue(Vec<u8>),
+    ParameterRef(u64),
+    RelocatedAddress(u64),
+    IndexedAddress { index: u64, relocate: bool },
+    BaseType(u64),
+    WasmLocal(u32),
+    WasmGlobal(u32),
+    WasmStack(u32),
+}
+
+impl Req {
+    pub fn kind(&self) -> &'static str {
+        match self {
+            Req::Memory { .. } => "RequiresMemory",
+            Req::Register { .. } => "RequiresRegister",
+            Req::FrameBase => "RequiresFrameBase",
+            Req::Tls(_) => "RequiresTls",
+            Req::Cfa => "RequiresCallFrameCfa",
+            Req::AtLocation(_) => "RequiresAtLocation",
+            Req::EntryValue(_) => "RequiresEntryValue",
+            Req::ParameterRef(_) => "RequiresParameterRef",
+            Req::RelocatedAddress(_) => "RequiresRelocatedAddress",
+            Req::IndexedAddress { .. } => "RequiresIndexedAddress",
+            Req::BaseType(_) => "RequiresBaseType",
+            Req::WasmLocal(_) => "RequiresWasmLocal",
+            Req::WasmGlobal(_) => "RequiresWasmGlobal",
+            Req::WasmStack(_) => "RequiresWasmStack",
+        }
+    }
+}
+
+/// An answer to a request.  `Value` for memory / register / entry value / WASM, `Word` for
+/// frame base / TLS / CFA / parameter ref / relocated and indexed addresses, `Expr(i)` =
+/// the i-th expression of the answer pool for `AtLocation`, `Type` for `BaseType`.
+#[derive(Clone, Copy, Debug, PartialEq, Eq)]
+pub enum Ans {
+    /// raw value: for Generic the bits may exceed the address width (reduced by the machine)
+    Value(Ty, u64),
+    Word(u64),
+    Expr(usize),
+    Type(Ty),
+}
+
+#[derive(Clone, Debug, PartialEq, Eq)]
+pub enum Loc {
+    Empty,
+    Register(u16),
+    Address(u64),
+    Value(Val),
+    Bytes(Vec<u8>),
+    ImplicitPointer { value: u64, off: i64 },
+}
+
+#[derive(Clone, Debug, PartialEq, Eq)]
+pub struct MPiece {
+    pub size_in_bits: Option<u64>,
+    pub bit_offset: Option<u64>,
+    pub location: Loc,
+}
+
+/// Storage capacities (None = unlimited heap storage).
+#[derive(Clone, Copy, Debug, PartialEq, Eq)]
+pub struct Caps {
+    pub stack: usize,
+    pub expr: usize,
+    pub result: usize,
+}
+
+#[derive(Clone, Debug)]
+pub struct Config {
+    pub enc: Enc,
+    pub initial: Option<u64>,
+    pub object_address: Option<u64>,
+    /// `set_max_iterations`
+    pub max_iterations: Option<u32>,
+    pub caps: Option<Caps>,
+    /// the model itself gives up (End::Budget) after this many iterations
+    pub budget: u64,
+}
+
+#[derive(Clone, Debug, PartialEq, Eq)]
+pub struct MErr {
+    /// every error kind that applies; `kinds[0]` is what the pinned tree reports
+    pub kinds: Vec<&'static str>,
+}
+
+#[derive(Clone, Debug, PartialEq, Eq)]
+pub enum End {
+    Complete { pieces: Vec<MPiece>, value: Option<Val> },
+    Error(MErr),
+    /// iteration limit exceeded (`TooManyIterations`)
+    TooMany,
+    /// the model's own budget was exhausted (no limit set): the program needs more than
+    /// `budget` iterations
+    Budget,
+}
+
+#[derive(Clone, Debug)]
+pub struct Outcome {
+    pub requests: Vec<(Req, Ans)>,
+    pub end: End,
+    /// operations executed (each counted before it is decoded)
+    pub iterations: u64,
+    /// operation decodes attempted (iterations that got as far as decoding + the extra decode
+    /// after a location-completing operation)
+    pub decodes: u64,
+    /// an undefined / pinned-only behaviour influenced the outcome
+    pub tainted: Option<&'static str>,
+    /// catalogue of operations executed (names), for coverage
+    pub executed: Vec<&'static str>,
+    /// peak value-stack depth
+    pub peak_stack: usize,
+    /// the run exercised a known, reported defect of the pinned tree (see REPORT.md):
+    /// mismatches of such a run are counted, not reported
+    pub known: Option<&'static str>,
+    /// which capacity a StackFull error came from: "values" / "calls" / "pieces"
+    pub full_cause: Option<&'static str>,
+    /// backward branches taken / returns from non-empty callees (coverage only)
+    pub backward: u64,
+    pub returns: u64,
+}
+
+pub fn derr_kinds(e: DErr) -> Vec<&'static str> {
+    match e {
+        DErr::Eof => vec!["UnexpectedEof"],
+        DErr::BadUleb => vec!["BadUnsignedLeb128"],
+        DErr::BadSleb => vec!["BadSignedLeb128"],
+        DErr::Invalid => vec!["InvalidExpression"],
+        DErr::Register => vec!["UnsupportedRegister"],
+        DErr::Overlong => vec!["BadUnsignedLeb128", "BadSignedLeb128", "UnexpectedEof", "<overlong>"],
+    }
+}
+
+struct Frame {
+    code: usize,
+    pc: usize,
+}
+
+struct Machine<'a> {
+    cfg: &'a Config,
+    addr: u8,
+    codes: Vec<&'a [u8]>,
+    cur: Frame,
+    frames: Vec<Frame>,
+    stack: Vec<Val>,
+    pieces: Vec<MPiece>,
+    tainted: Option<&'static str>,
+    peak: usize,
+    known: Option<&'static str>,
+    /// which capacity a StackFull came from: "values" / "calls" / "pieces"
+    full_cause: Option<&'static str>,
+    backward: u64,
+    returns: u64,
+}
+
+type R<T> = Result<T, MErr>;
+
+fn err(kinds: &[&'static str]) -> MErr {
+    MErr { kinds: kinds.to_vec() }
+}
+
+const E_STACK: &str = "NotEnoughStackItems";
+const E_FULL: &str = "StackFull";
+const E_TYPE: &str = "TypeMismatch";
+const E_INTEGRAL: &str = "IntegralTypeRequired";
+const E_UNSUP: &str = "UnsupportedTypeOperation";
+const E_SHIFT: &str = "InvalidShiftExpression";
+const E_DIV0: &str = "DivisionByZero";
+
+#[derive(Clone, Copy, PartialEq)]
+enum Bin {
+    Plus,
+    Minus,
+    Mul,
+    Div,
+    Mod,
+    And,
+    Or,
+    Xor,
+    Shl,
+    Shr,
+    Shra,
+    Eq,
+    Ge,
+    Gt,
+    Le,
+    Lt,
+    Ne,
+}
+
+impl<'a> Machine<'a> {
+    fn taint(&mut self, why: &'static str) {
+        if self.tainted.is_none() {
+            self.tainted = Some(why);
+        }
+    }
+    fn push(&mut self, v: Val) -> R<()> {
+        if let Some(c) = self.cfg.caps {
+            if self.stack.len() >= c.stack {
+                self.full_cause = Some("values");
+                return Err(err(&[E_FULL]));
+            }
+        }
+        self.stack.push(v);
+        if self.stack.len() > self.peak {
+            self.peak = self.stack.len();
+        }
+        Ok(())
+    }
+    fn pop(&mut self) -> R<Val> {
+        self.stack.pop().ok_or_else(|| err(&[E_STACK]))
+    }
+    /// Pop an integer used as an address / index: floats are not integral.
+    fn pop_int(&mut self) -> R<u64> {
+        let v = self.pop()?;
+        if v.ty.is_float() {
+            return Err(err(&[E_INTEGRAL]));
+        }
+        // signed typed values are sign-extended to 64 bits (pinned), generic values are
+        // address-sized
+        if v.ty.is_signed_int() && v.signed(self.addr) < 0 {
+            self.taint("negative typed value used as an address");
+        }
+        Ok(if v.ty.is_signed_int() { v.signed(self.addr) as u64 } else { v.bits })
+    }
+    /// Pop a branch condition: true iff non-zero.
+    fn pop_cond(&mut self) -> R<bool> {
+        let v = self.pop()?;
+        if v.ty.is_float() {
+            return Err(err(&[E_INTEGRAL]));
+        }
+        Ok(v.bits != 0)
+    }
+    fn push_piece(&mut self, p: MPiece) -> R<()> {
+        if let Some(c) = self.cfg.caps {
+            if self.pieces.len() >= c.result {
+                self.full_cause = Some("pieces");
+                return Err(err(&[E_FULL]));
+            }
+        }
+        self.pieces.push(p);
+        Ok(())
+    }
+    /// Is the (outermost) expression finished?  Returning from finished callees on the way.
+    fn at_end(&mut self) -> bool {
+        while self.cur.pc >= self.codes[self.cur.code].len() {
+            match self.frames.pop() {
+                Some(f) => {
+                    self.cur = f;
+                    self.returns += 1;
+                }
+                None => return true,
+            }
+        }
+        false
+    }
+    fn branch(&mut self, rel: i16) -> R<()> {
+        let len = self.codes[self.cur.code].len() as i128;
+        let target = self.cur.pc as i128 + rel as i128;
+        if target < 0 || target > len {
+            return Err(err(&["BadBranchTarget"]));
+        }
+        if (target as usize) < self.cur.pc {
+            self.backward += 1;
+        }
+        self.cur.pc = target as usize;
+        Ok(())
+    }
+
+    fn float_bin(&mut self, op: Bin, l: Val, r: Val) -> R<Val> {
+        // same float type on both sides
+        macro_rules! go {
+            ($a:expr, $b:expr, $mk:expr) => {{
+                let (a, b) = ($a, $b);
+                match op {
+                    Bin::Plus => Ok($mk(a + b)),
+                    Bin::Minus => Ok($mk(a - b)),
+                    Bin::Mul => Ok($mk(a * b)),
+                    Bin::Div => {
+                        if b == 0.0 {
+                            self.taint("float division by zero");
+                        }
+                        Ok($mk(a / b))
+                    }
+                    Bin::Eq => Ok(Val::generic((a == b) as u64, self.addr)),
+                    Bin::Ne => Ok(Val::generic((a != b) as u64, self.addr)),
+                    Bin::Ge => Ok(Val::generic((a >= b) as u64, self.addr)),
+                    Bin::Gt => Ok(Val::generic((a > b) as u64, self.addr)),
+                    Bin::Le => Ok(Val::generic((a <= b) as u64, self.addr)),
+                    Bin::Lt => Ok(Val::generic((a < b) as u64, self.addr)),
+                    _ => Err(err(&[E_INTEGRAL])),
+                }
+            }};
+        }
+        if l.ty == Ty::F32 {
+            go!(l.f32(), r.f32(), Val::from_f32)
+        } else {
+            go!(l.f64(), r.f64(), Val::from_f64)
+        }
+    }
+
+    fn binary(&mut self, op: Bin) -> R<()> {
+        if self.stack.len() < 2 {
+            // (the pinned tree pops what is there first; the stack is not observable after an error)
+            self.stack.clear();
+            return Err(err(&[E_STACK]));
+        }
+        let r = self.pop()?;
+        let l = self.pop()?;
+        let a = self.addr;
+        let is_shift = matches!(op, Bin::Shl | Bin::Shr | Bin::Shra);
+        let mut errs: Vec<&'static str> = vec![];
+        if is_shift {
+            // count: any integral type; negative or float counts are invalid
+            let bad_count = r.ty.is_float() || (r.ty.is_signed_int() && r.signed(a) < 0);
+            if bad_count {
+                errs.push(E_SHIFT);
+            }
+            if l.ty.is_float() {
+                errs.push(E_INTEGRAL);
+            } else if (op == Bin::Shr && l.ty.is_signed_int()) || (op == Bin::Shra && l.ty.is_unsigned_typed()) {
+                errs.push(E_UNSUP);
+            }
+            if !errs.is_empty() {
+                return Err(MErr { kinds: errs });
+            }
+            let w = l.ty.bits(a);
+            let count = r.bits as u128; // non-negative
+            let res = match op {
+                Bin::Shl => {
+                    if count >= w as u128 {
+                        0
+                    } else {
+                        l.unsigned() << count as u32
+                    }
+                }
+                Bin::Shr => {
+                    if count >= w as u128 {
+                        0
+                    } else {
+                        l.unsigned() >> count as u32
+                    }
+                }
+                _ => {
+                    let s = l.signed(a);
+                    if count >= w as u128 {
+                        if s < 0 {
+                            -1
+                        } else {
+                            0
+                        }
+                    } else {
+                        s >> count as u32
+                    }
+                }
+            };
+            return self.push(wrap(l.ty, res, a));
+        }
+        let integral_only = matches!(op, Bin::Mod | Bin::And | Bin::Or | Bin::Xor);
+        let divides = matches!(op, Bin::Div | Bin::Mod);
+        let r_zero_int = !r.ty.is_float() && r.bits == 0;
+        if divides && r_zero_int {
+            errs.push(E_DIV0);
+        }
+        if l.ty != r.ty {
+            errs.push(E_TYPE);
+            if integral_only && (l.ty.is_float() || r.ty.is_float()) {
+                errs.push(E_INTEGRAL);
+            }
+        } else if integral_only && l.ty.is_float() {
+            errs.push(E_INTEGRAL);
+        }
+        if !errs.is_empty() {
+            return Err(MErr { kinds: errs });
+        }
+        if l.ty.is_float() {
+            let v = self.float_bin(op, l, r)?;
+            return self.push(v);
+        }
+        let ty = l.ty;
+        // signedness table: generic is signed for div and the comparisons, unsigned for mod
+        let generic_signed = matches!(op, Bin::Div | Bin::Eq | Bin::Ge | Bin::Gt | Bin::Le | Bin::Lt | Bin::Ne);
+        let rd = |v: Val| -> i128 {
+            if ty == Ty::Generic {
+                if generic_signed {
+                    v.signed(a)
+                } else {
+                    v.unsigned()
+                }
+            } else {
+                v.int_value(a)
+            }
+        };
+        let (x, y) = (rd(l), rd(r));
+        let cmp = |b: bool| Val::generic(b as u64, a);
+        let v = match op {
+            Bin::Plus => wrap(ty, x + y, a),
+            Bin::Minus => wrap(ty, x - y, a),
+            Bin::Mul => wrap(ty, x.wrapping_mul(y), a),
+            // truncating division; minimum / -1 wraps in the width
+            Bin::Div => wrap(ty, x / y, a),
+            // remainder with the sign of the dividend (typed signed), unsigned for generic
+            Bin::Mod => wrap(ty, x % y, a),
+            Bin::And => wrap(ty, x & y, a),
+            Bin::Or => wrap(ty, x | y, a),
+            Bin::Xor => wrap(ty, x ^ y, a),
+            Bin::Eq => cmp(x == y),
+            Bin::Ne => cmp(x != y),
+            Bin::Ge => cmp(x >= y),
+            Bin::Gt => cmp(x > y),
+            Bin::Le => cmp(x <= y),
+            Bin::Lt => cmp(x < y),
+            Bin::Shl | Bin::Shr | Bin::Shra => unreachable!(),
+        };
+        self.push(v)
+    }
+
+    /// Integer constant `c` (unsigned 64-bit) converted to the type of an operand.
+    fn const_in_type(&self, ty: Ty, c: u64) -> Val {
+        match ty {
+            Ty::F32 => Val::from_f32(c as f32),
+            Ty::F64 => Val::from_f64(c as f64),
+            t => Val::new(t, c, self.addr),
+        }
+    }
+
+    fn add_same(&mut self, l: Val, r: Val) -> Val {
+        if l.ty == Ty::F32 {
+            Val::from_f32(l.f32() + r.f32())
+        } else if l.ty == Ty::F64 {
+            Val::from_f64(l.f64() + r.f64())
+        } else {
+            wrap(l.ty, l.unsigned() + r.unsigned(), self.addr)
+        }
+    }
+
+    fn convert(&mut self, v: Val, to: Ty) -> Val {
+        let a = self.addr;
+        if v.ty.is_float() {
+            let x: f64 = if v.ty == Ty::F32 { v.f32() as f64 } else { v.f64() };
+            match to {
+                Ty::F32 => {
+                    if v.ty == Ty::F32 {
+                        v
+                    } else {
+                        Val::from_f32(x as f32)
+                    }
+                }
+                Ty::F64 => Val::from_f64(x),
+                t => {
+                    // float -> integer: truncation toward zero; undefined if it does not fit
+                    let w = t.bits(a);
+                    let (lo, hi): (f64, f64) = if t.is_signed_int() {
+                        (-(2f64.powi(w as i32 - 1)), 2f64.powi(w as i32 - 1))
+                    } else {
+                        (0.0, 2f64.powi(w as i32))
+                    };
+                    let tr = x.trunc();
+                    if x.is_nan() || tr < lo || tr >= hi {
+                        self.taint("float to integer conversion out of range");
+                    }
+                    // saturating cast (what Rust's `as` does), then reduced to the width
+                    let i: i128 = if x.is_nan() {
+                        0
+                    } else if t.is_signed_int() {
+                        let m = 1i128 << (w - 1);
+                        (tr as i128).clamp(-m, m - 1)
+                    } else if t == Ty::Generic {
+                        // generic: the pinned tree converts to u64 and reduces
+                        (tr as i128).clamp(0, u64::MAX as i128)
+                    } else {
+                        (tr as i128).clamp(0, width_mask(w) as i128)
+                    };
+                    wrap(t, i, a)
+                }
+            }
+        } else {
+            let x = v.int_value(a);
+            match to {
+                Ty::F32 => Val::from_f32(x as f32),
+                Ty::F64 => Val::from_f64(x as f64),
+                t => wrap(t, x, a),
+            }
+        }
+    }
+}
+
+/// Parse `data` as a constant of type `ty` in byte order `le` (DW_OP_const_type).
+fn parse_typed(ty: Ty, data: &[u8], le: bool, addr: u8) -> Result<(Val, bool), MErr> {
+    if ty == Ty::Generic {
+        return Err(err(&[E_UNSUP]));
+    }
+    let n = (ty.bits(addr) / 8) as usize;
+    if data.len() < n {
+        return Err(err(&["UnexpectedEof"]));
+    }
+    Ok((Val::new(ty, get_uint(data, le, n), addr), data.len() > n))
+}
+
+/// Run the reference machine.  `pool[i]` is the expression that `Ans::Expr(i)` stands for.
+pub fn evaluate(code: &[u8], cfg: &Config, pool: &[Vec<u8>], ans: &mut dyn FnMut(usize, &Req) -> Ans) -> Outcome {
+    let mut m = Machine {
+        cfg,
+        addr: cfg.enc.addr,
+        codes: vec![code],
+        cur: Frame { code: 0, pc: 0 },
+        frames: vec![],
+        stack: vec![],
+        pieces: vec![],
+        tainted: None,
+        peak: 0,
+        known: None,
+        full_cause: None,
+        backward: 0,
+        returns: 0,
+    };
+    let mut out = Outcome { requests: vec![], end: End::Budget, iterations: 0, decodes: 0, tainted: None, executed: vec![], peak_stack: 0, known: None, full_cause: None, backward: 0, returns: 0 };
+    let end = run(&mut m, &mut out, pool, ans);
+    out.end = match end {
+        Ok(e) => e,
+        Err(e) => End::Error(e),
+    };
+    out.tainted = m.tainted;
+    out.known = m.known;
+    out.full_cause = m.full_cause;
+    out.backward = m.backward;
+    out.returns = m.returns;
+    out.peak_stack = m.peak;
+    out
+}
+
+fn run<'a>(m: &mut Machine<'a>, out: &mut Outcome, pool: &'a [Vec<u8>], ans: &mut dyn FnMut(usize, &Req) -> Ans) -> R<End> {
+    let a = m.addr;
+    let enc = m.cfg.enc;
+    if let Some(v) = m.cfg.initial {
+        m.push(Val::generic(v, a))?;
+    }
+    // true while the last executed operation was a request / call whose "trailing
+    // non-piece operation" check the pinned tree skips
+    loop {
+        if m.at_end() {
+            break;
+        }
+        out.iterations += 1;
+        if let Some(max) = m.cfg.max_iterations {
+            if out.iterations > max as u64 {
+                return Ok(End::TooMany);
+            }
+        }
+        if out.iterations > m.cfg.budget {
+            return Ok(End::Budget);
+        }
+        out.decodes += 1;
+        let code = m.codes[m.cur.code];
+        let (op, n) = decode(&code[m.cur.pc..], enc).map_err(|e| MErr { kinds: derr_kinds(e) })?;
+        m.cur.pc += n;
+        if out.executed.len() < 4096 {
+            out.executed.push(op.name());
+        }
+        // what kind of step was it
+        enum Step {
+            Plain,
+            Piece,
+            Location(Loc),
+            Request(Req),
+        }
+        let step = match op {
+            Op::ConstU(v) => {
+                m.push(Val::generic(v, a))?;
+                Step::Plain
+            }
+            Op::ConstS(v) => {
+                m.push(Val::generic(v as u64, a))?;
+                Step::Plain
+            }
+            Op::Pick(i) => {
+                let len = m.stack.len();
+                if i as usize >= len {
+                    return Err(err(&[E_STACK]));
+                }
+                let v = m.stack[len - 1 - i as usize];
+                m.push(v)?;
+                Step::Plain
+            }
+            Op::Drop => {
+                m.pop()?;
+                Step::Plain
+            }
+            Op::Swap => {
+                if m.stack.len() < 2 {
+                    return Err(err(&[E_STACK]));
+                }
+                let len = m.stack.len();
+                m.stack.swap(len - 1, len - 2);
+                Step::Plain
+            }
+            Op::Rot => {
+                // bottom -> top: x y z  becomes  z x y
+                if m.stack.len() < 3 {
+                    return Err(err(&[E_STACK]));
+                }
+                let z = m.stack.pop().unwrap();
+                let y = m.stack.pop().unwrap();
+                let x = m.stack.pop().unwrap();
+                m.stack.push(z);
+                m.stack.push(x);
+                m.stack.push(y);
+                Step::Plain
+            }
+            Op::Abs => {
+                let v = m.pop()?;
+                let r = match v.ty {
+                    Ty::F32 => {
+                        let f = v.f32();
+                        if f.is_nan() || (f == 0.0 && f.is_sign_negative()) {
+                            m.taint("abs of NaN / -0.0");
+                        }
+                        // pinned: negate when < 0
+                        Val::from_f32(if f < 0.0 { -f } else { f })
+                    }
+                    Ty::F64 => {
+                        let f = v.f64();
+                        if f.is_nan() || (f == 0.0 && f.is_sign_negative()) {
+                            m.taint("abs of NaN / -0.0");
+                        }
+                        Val::from_f64(if f < 0.0 { -f } else { f })
+                    }
+                    t if t.is_unsigned_typed() => v,
+                    t => {
+                        let s = v.signed(a);
+                        if s == -(1i128 << (t.bits(a) - 1)) {
+                            m.taint("abs of the minimum value");
+                        }
+                        wrap(t, s.abs(), a)
+                    }
+                };
+                m.push(r)?;
+                Step::Plain
+            }
+            Op::Neg => {
+                let v = m.pop()?;
+                let r = match v.ty {
+                    Ty::F32 => Val::from_f32(-v.f32()),
+                    Ty::F64 => Val::from_f64(-v.f64()),
+                    t if t.is_unsigned_typed() => return Err(err(&[E_UNSUP])),
+                    t => {
+                        let s = v.signed(a);
+                        if s == -(1i128 << (t.bits(a) - 1)) {
+                            m.taint("neg of the minimum value");
+                        }
+                        wrap(t, -s, a)
+                    }
+                };
+                m.push(r)?;
+                Step::Plain
+            }
+            Op::Not => {
+                let v = m.pop()?;
+                if v.ty.is_float() {
+                    return Err(err(&[E_INTEGRAL]));
+                }
+                m.push(wrap(v.ty, !(v.bits as i128), a))?;
+                Step::Plain
+            }
+            Op::PlusUconst(c) => {
+                let v = m.pop()?;
+                let k = m.const_in_type(v.ty, c);
+                let r = m.add_same(v, k);
+                m.push(r)?;
+                Step::Plain
+            }
+            Op::Plus => {
+                m.binary(Bin::Plus)?;
+                Step::Plain
+            }
+            Op::Minus => {
+                m.binary(Bin::Minus)?;
+                Step::Plain
+            }
+            Op::Mul => {
+                m.binary(Bin::Mul)?;
+                Step::Plain
+            }
+            Op::Div => {
+                m.binary(Bin::Div)?;
+                Step::Plain
+            }
+            Op::Mod => {
+                m.binary(Bin::Mod)?;
+                Step::Plain
+            }
+            Op::And => {
+                m.binary(Bin::And)?;
+                Step::Plain
+            }
+            Op::Or => {
+                m.binary(Bin::Or)?;
+                Step::Plain
+            }
+            Op::Xor => {
+                m.binary(Bin::Xor)?;
+                Step::Plain
+            }
+            Op::Shl => {
+                m.binary(Bin::Shl)?;
+                Step::Plain
+            }
+            Op::Shr => {
+                m.binary(Bin::Shr)?;
+                Step::Plain
+            }
+            Op::Shra => {
+                m.binary(Bin::Shra)?;
+                Step::Plain
+            }
+            Op::Eq => {
+                m.binary(Bin::Eq)?;
+                Step::Plain
+            }
+            Op::Ge => {
+                m.binary(Bin::Ge)?;
+                Step::Plain
+            }
+            Op::Gt => {
+                m.binary(Bin::Gt)?;
+                Step::Plain
+            }
+            Op::Le => {
+                m.binary(Bin::Le)?;
+                Step::Plain
+            }
+            Op::Lt => {
+                m.binary(Bin::Lt)?;
+                Step::Plain
+            }
+            Op::Ne => {
+                m.binary(Bin::Ne)?;
+                Step::Plain
+            }
+            Op::Bra(rel) => {
+                if m.pop_cond()? {
+                    m.branch(rel)?;
+                }
+                Step::Plain
+            }
+            Op::Skip(rel) => {
+                m.branch(rel)?;
+                Step::Plain
+            }
+            Op::Nop => Step::Plain,
+            Op::PushObjectAddress => {
+                match m.cfg.object_address {
+                    Some(v) => m.push(Val::generic(v, a))?,
+                    None => return Err(err(&["InvalidPushObjectAddress"])),
+                }
+                Step::Plain
+            }
+            Op::VariableValue(_) | Op::Uninit => return Err(err(&["UnsupportedEvaluation"])),
+            Op::Piece { bits, off } => {
+                let location = if m.stack.is_empty() { Loc::Empty } else { Loc::Address(m.pop_int()?) };
+                m.push_piece(MPiece { size_in_bits: Some(bits), bit_offset: off, location })?;
+                Step::Piece
+            }
+            Op::Reg(r) => Step::Location(Loc::Register(r)),
+            Op::ImplicitValue(ref d) => Step::Location(Loc::Bytes(d.clone())),
+            Op::StackValue => Step::Location(Loc::Value(m.pop()?)),
+            Op::ImplicitPointer { value, off } => Step::Location(Loc::ImplicitPointer { value, off }),
+            Op::Deref { size, space, base_type } => {
+                let mut errs: Vec<&'static str> = vec![];
+                if size > a {
+                    errs.push("InvalidDerefSize");
+                }
+                let need = if space { 2 } else { 1 };
+                if m.stack.len() < need {
+                    // xderef with only a float address on the stack: both errors apply (the
+                    // pinned tree looks at the address first)
+                    if m.stack.last().map(|v| v.ty.is_float()).unwrap_or(false) {
+                        errs.push(E_INTEGRAL);
+                    }
+                    errs.push(E_STACK);
+                } else if (0..need).any(|i| m.stack[m.stack.len() - 1 - i].ty.is_float()) {
+                    errs.push(E_INTEGRAL);
+                }
+                if !errs.is_empty() {
+                    return Err(MErr { kinds: errs });
+                }
+                let address = m.pop_int()?;
+                let space = if space { Some(m.pop_int()?) } else { None };
+                Step::Request(Req::Memory { address, size, space, base_type })
+            }
+            Op::Breg { reg, base_type, .. } => Step::Request(Req::Register { register: reg, base_type }),
+            Op::Fbreg(_) => Step::Request(Req::FrameBase),
+            Op::Tls => Step::Request(Req::Tls(m.pop_int()?)),
+            Op::Cfa => Step::Request(Req::Cfa),
+            Op::Call(r) => Step::Request(Req::AtLocation(r)),
+            Op::EntryValue(ref e) => Step::Request(Req::EntryValue(e.clone())),
+            Op::ParameterRef(o) => Step::Request(Req::ParameterRef(o)),
+            Op::Addr(x) => Step::Request(Req::RelocatedAddress(x)),
+            Op::Addrx(i) => Step::Request(Req::IndexedAddress { index: i, relocate: true }),
+            Op::Constx(i) => Step::Request(Req::IndexedAddress { index: i, relocate: false }),
+            Op::ConstType { base_type, .. } | Op::Convert(base_type) | Op::Reinterpret(base_type) => Step::Request(Req::BaseType(base_type)),
+            Op::WasmLocal(i) => Step::Request(Req::WasmLocal(i)),
+            Op::WasmGlobal(i) => Step::Request(Req::WasmGlobal(i)),
+            Op::WasmStack(i) => Step::Request(Req::WasmStack(i)),
+        };
+        match step {
+            Step::Piece => {}
+            Step::Plain => {
+                if m.at_end() && !m.pieces.is_empty() {
+                    return Err(err(&["InvalidPiece"]));
+                }
+            }
+            Step::Location(location) => {
+                if m.at_end() {
+                    if !m.pieces.is_empty() {
+                        return Err(err(&["InvalidPiece"]));
+                    }
+                    m.push_piece(MPiece { size_in_bits: None, bit_offset: None, location })?;
+                } else {
+                    // the next operation must be a piece; it is consumed together with the
+                    // location (the "+1 decode", not an iteration)
+                    out.decodes += 1;
+                    let code = m.codes[m.cur.code];
+                    let (next, n) = decode(&code[m.cur.pc..], enc).map_err(|e| MErr { kinds: derr_kinds(e) })?;
+                    m.cur.pc += n;
+                    match next {
+                        Op::Piece { bits, off } => m.push_piece(MPiece { size_in_bits: Some(bits), bit_offset: off, location })?,
+                        _ => return Err(err(&["InvalidExpressionTerminator"])),
+                    }
+                }
+            }
+            Step::Request(req) => {
+                let idx = out.requests.len();
+                let answer = ans(idx, &req);
+                out.requests.push((req.clone(), answer));
+                // apply the answer
+                let bad_answer = || err(&["<answer kind does not match the request>"]);
+                match (&req, &op) {
+                    (Req::Memory { .. }, _) | (Req::EntryValue(_), _) | (Req::WasmLocal(_), _) | (Req::WasmGlobal(_), _) | (Req::WasmStack(_), _) => {
+                        let Ans::Value(t, raw) = answer else { return Err(bad_answer()) };
+                        m.push(Val::new(t, raw, a))?;
+                    }
+                    (Req::Register { .. }, Op::Breg { off, .. }) => {
+                        let Ans::Value(t, raw) = answer else { return Err(bad_answer()) };
+                        let v = Val::new(t, raw, a);
+                        // answer + offset in the answer's type
+                        let k = if t.is_float() {
+                            if *off < 0 {
+                                m.taint("float register answer with a negative offset");
+                            }
+                            m.const_in_type(t, *off as u64)
+                        } else {
+                            Val::new(t, *off as u64, a)
+                        };
+                        let r = m.add_same(v, k);
+                        m.push(r)?;
+                    }
+                    (Req::FrameBase, Op::Fbreg(off)) => {
+                        let Ans::Word(w) = answer else { return Err(bad_answer()) };
+                        m.push(Val::generic(w.wrapping_add(*off as u64), a))?;
+                    }
+                    (Req::Tls(_), _) | (Req::Cfa, _) | (Req::ParameterRef(_), _) | (Req::RelocatedAddress(_), _) | (Req::IndexedAddress { .. }, _) => {
+                        let Ans::Word(w) = answer else { return Err(bad_answer()) };
+                        m.push(Val::generic(w, a))?;
+                    }
+                    (Req::AtLocation(_), _) => {
+                        let Ans::Expr(i) = answer else { return Err(bad_answer()) };
+                        let Some(e) = pool.get(i) else { return Err(bad_answer()) };
+                        if !e.is_empty() {
+                            if let Some(c) = m.cfg.caps {
+                                if m.frames.len() >= c.expr {
+                                    m.full_cause = Some("calls");
+                                    return Err(err(&[E_FULL]));
+                                }
+                            }
+                            m.codes.push(&e[..]);
+                            let callee = Frame { code: m.codes.len() - 1, pc: 0 };
+                            let caller = std::mem::replace(&mut m.cur, callee);
+                            m.frames.push(caller);
+                        }
+                    }
+                    (Req::BaseType(_), Op::ConstType { data, .. }) => {
+                        let Ans::Type(t) = answer else { return Err(bad_answer()) };
+                        let (v, longer) = parse_typed(t, data, enc.le, a)?;
+                        if longer {
+                            m.taint("const_type with more data than the type needs");
+                        }
+                        m.push(v)?;
+                    }
+                    (Req::BaseType(_), Op::Convert(_)) => {
+                        let Ans::Type(t) = answer else { return Err(bad_answer()) };
+                        let v = m.pop()?;
+                        let r = m.convert(v, t);
+                        m.push(r)?;
+                    }
+                    (Req::BaseType(_), Op::Reinterpret(_)) => {
+                        let Ans::Type(t) = answer else { return Err(bad_answer()) };
+                        let v = m.pop()?;
+                        if v.ty.bits(a) != t.bits(a) {
+                            return Err(err(&[E_TYPE]));
+                        }
+                        m.push(Val { ty: t, bits: v.bits })?;
+                    }
+                    _ => return Err(bad_answer()),
+                }
+                // The pinned tree does not apply the "trailing non-piece operation after
+                // pieces" rule (InvalidPiece) to operations that end in a request.
+                if !m.pieces.is_empty() {
+                    let mut probe_end = m.cur.pc >= m.codes[m.cur.code].len();
+                    if probe_end {
+                        // would the whole expression be finished?
+                        probe_end = m.frames.iter().all(|f| f.pc >= m.codes[f.code].len());
+                    }
+                    if probe_end {
+                        m.taint("composite location ends with a non-piece request operation");
+                    }
+                }
+            }
+        }
+    }
+    // end of the outermost expression
+    if m.pieces.is_empty() {
+        let v = m.pop()?;
+        if v.ty.is_float() {
+            return Err(err(&[E_INTEGRAL]));
+        }
+        if v.ty.is_signed_int() && v.signed(a) < 0 {
+            m.taint("negative typed value used as an address");
+        }
+        let address = if v.ty.is_signed_int() { v.signed(a) as u64 } else { v.bits };
+        m.push_piece(MPiece { size_in_bits: None, bit_offset: None, location: Loc::Address(address) })?;
+        Ok(End::Complete { pieces: std::mem::take(&mut m.pieces), value: Some(v) })
+    } else {
+        Ok(End::Complete { pieces: std::mem::take(&mut m.pieces), value: None })
+    }
+}
+
+/// Sequential decode of a whole expression (what an operation iterator yields): the
+/// operations with their offsets, and the error that stops it, if any.
+pub fn decode_all(code: &[u8], enc: Enc) -> (Vec<(usize, Op)>, Option<DErr>) {
+    let mut out = vec![];
+    let mut pc = 0usize;
+    while pc < code.len() {
+        match decode(&code[pc..], enc) {
+            Ok((op, n)) => {
+                out.push((pc, op));
+                pc += n;
+            }
+            Err(e) => return (out, Some(e)),
+        }
+    }
+    (out, None)
+}
